@@ -63,6 +63,12 @@ func (g *G) genType(c *objCase, o genOpts, depth int) *TD {
 			return prim()
 		}
 		n := []int{0, 1, 3, 24}[g.intn(4)]
+		if g.chance(0.3) {
+			if g.chance(0.3) {
+				return octSlice()
+			}
+			return octArray(n)
+		}
 		return &TD{k: "X", n: n, rt: reflect.ArrayOf(n, primKinds["u8"])}
 	case pick == 7:
 		// named prim from the zoo
@@ -218,9 +224,24 @@ func (g *G) genStruct(c *objCase, o genOpts, depth int) *TD {
 		nf += 2
 		sibs = g.intn(nf - 1)
 	}
+	// sometimes: two fields of the keyed-union type with an atlas struct between them (the union's
+	// member machine and the struct field's machine come out of the same slab row)
+	sibsU := -1
+	if o.unions && !wide && sibs < 0 && g.chance(0.08) {
+		nf += 3
+		sibsU = g.intn(nf - 2)
+	}
 	for i := 0; i < nf; i++ {
 		var ft *TD
-		if sibs >= 0 && (i == sibs || i == sibs+1) {
+		if sibsU >= 0 && i >= sibsU && i <= sibsU+2 {
+			if i == sibsU+1 {
+				c.zooUnion(o) // the members' entries come first, with their own names
+				mid := []int{20, 21, 15}[g.intn(3)]
+				ft = c.zooStructEntry(mid, map[int][]string{20: {"r"}, 21: {"s", "n"}, 15: {"w"}}[mid])
+			} else {
+				ft = c.zooUnion(o)
+			}
+		} else if sibs >= 0 && (i == sibs || i == sibs+1) {
 			el := &TD{k: "i", rt: primKinds["i"]}
 			kt := &TD{k: "s", rt: primKinds["s"]}
 			if i == sibs {
